@@ -1,12 +1,13 @@
 /-
   C04 — property theorems only. Change detection is exact.
 
-  `a ≈ b` (`Equiv`) is the equivalence the real `diffs.diff` decides: Python `==` (`same`, so
-  `True == 1`, dict key order irrelevant) modulo object keys whose value is `null` (`J.dropNulls`:
-  `diff_iter(None, None)` yields nothing, so a null-valued key and an absent key are the same to it).
-  Both deviations from JSON equality are real deviations from the property text — a field may change
-  between `1` and `true` (finding F7), and with nullable / preserve-unknown fields between `null` and
-  absent (finding C04-F10) — they are visible below and proved by witnesses.
+  `a ≈ b` (`Equiv`) is the equivalence the real `diffs.diff` decides: JSON equality (`same` =
+  `diffs._same`, kopf 6b2e53c: dict key order irrelevant, a boolean never equals a number — the
+  former finding F7) modulo object keys whose value is `null` (`J.dropNulls`: `diff_iter(None, None)`
+  yields nothing, so a null-valued key and an absent key are the same to it). The one remaining
+  deviation from JSON equality is a real deviation from the property text — with nullable /
+  preserve-unknown fields a field may change between `null` and absent (finding C04-F10) — and is
+  proved by a witness below.
 
   All theorems quantify over ALL well-formed JSON values (`J.WF`: object keys unique — what
   `json.loads` produces); there is no bound on nesting or size.
@@ -73,13 +74,6 @@ theorem reduce_empty_iff (a b : J) (p : Path) (ha : J.WF a) (hb : J.WF b) :
   rw [reduce_exact a b p ha hb]
   exact diff_empty_iff _ _ [] (wf_resolveD p a ha) (wf_resolveD p b hb)
 
-/-- F7, bool-vs-int: `1` and `true` are different JSON values, yet the diff is empty — the strict
-    reading of "empty only if nothing differs" is false of the code (known finding F7). -/
-theorem bool_int_witness :
-    diff (.obj [("spec", .obj [("a", .num 1)])]) (.obj [("spec", .obj [("a", .bool true)])]) [] = []
-    ∧ (J.obj [("spec", .obj [("a", .num 1)])] == J.obj [("spec", .obj [("a", .bool true)])]) = false := by
-  decide
-
 /-- C04-F10, null ≡ absent: a key with value `null` and a missing key are not distinguished, also
     below the root (inside arrays nulls do count): the strict reading "empty only if nothing differs"
     is false of the code here as well (Kubernetes does store nulls for nullable /
@@ -91,7 +85,8 @@ theorem null_absent_witness :
   decide
 
 example : J.WF (.obj [("spec", .obj [("a", .num 1), ("b", .arr [.null, .obj []])])]) := by unfold J.WF; decide
-example : (J.obj [("a", .num 1), ("b", .null)]) ≈ (J.obj [("a", .bool true)]) := by unfold Equiv; decide
+example : (J.obj [("a", .num 1), ("b", .null)]) ≈ (J.obj [("a", .num 1)]) := by unfold Equiv; decide
+example : ¬ ((J.obj [("a", .num 1)]) ≈ (J.obj [("a", .bool true)])) := by unfold Equiv; decide
 example : ¬ ((J.obj [("a", .num 1)]) ≈ (J.obj [("a", .num 2)])) := by unfold Equiv; decide
 
 /-! ## the essence: what never counts -/
@@ -224,21 +219,49 @@ example : ∀ kv, kv ∈ [("my-op.example.com/create_fn", J.str "{}"), ("my-op.e
 /-! ## what a Kopf annotations storage writes -/
 
 /-- **The writes of a Kopf annotations storage are invisible to every Kopf operator** (own and other:
-    no self-trigger through another operator, no ping-pong) — *if* the storage's prefix `P` gets the
-    `kopf-managed` marker or is recognised by itself. `A'` is the annotation mapping after the write:
-    it agrees with `A` off the prefix, and the marker is there (`storeMarker_ensures`: `_store_marker`
-    guarantees it exactly when `writesMarker P`, i.e. `P` does not start with `kopf.`).
-    Full clause — "for every prefix" — is FALSE: `kopf_prefix_unmarked_witness` (finding C04-N1). -/
-theorem kopf_storage_write_invisible_partial (cfg : Cfg) (extra : List (List String)) (kvs m A A' : Kvs) (P : String)
+    no self-trigger through another operator, no ping-pong), for EVERY prefix `P` (non-empty, as the
+    constructors require; no `/`): the storage's patch `patchAnn` (records, touch-dummy, last-handled
+    — any keys under `P`, set or purged) goes through `_store_marker` (`storeMarker`, kopf ef55390)
+    and is merged into the annotations `A` (RFC 7386): the essence does not change. The marker is
+    there after the write whenever the prefix is not recognised by itself (`marker_after_write`), so no
+    guard on the prefix is left (finding C04-N1 is repaired). The remaining hypothesis `hA` is the
+    reserved-prefix one (no visible user annotation under `P` before: finding C04-F11,
+    `marker_first_write_witness`). -/
+theorem kopf_storage_write_invisible (cfg : Cfg) (extra : List (List String)) (kvs m A patchAnn : Kvs) (P : String)
     (hm : lookup "metadata" kvs = some (.obj m)) (ha : lookup "annotations" m = some (.obj A))
-    (hP : '/' ∉ P.toList) (hd : AgreeOffPrefix P.toList A' A)
-    (hA : GroupDropped P.toList A)
-    (hmark : markerKey P ∈ keys A' ∨ knownish P.toList = true) (hx : ExtraAnnOK extra) :
-    essence cfg extra (.obj (withAnn kvs m A')) = essence cfg extra (.obj kvs) :=
-  prefix_group_invisible cfg extra kvs m A A' P.toList hm ha hd hA (groupDropped_of_marker hP hmark) hx
+    (hP0 : P ≠ "") (hP : '/' ∉ P.toList)
+    (hkeys : ∀ k, k ∈ keys patchAnn → pfx k = some P.toList) (hnm : markerKey P ∉ keys patchAnn)
+    (hA : GroupDropped P.toList A) (hx : ExtraAnnOK extra) :
+    essence cfg extra (.obj (withAnn kvs m (mergeKvs A (storeMarker P A patchAnn)))) = essence cfg extra (.obj kvs) := by
+  have hall : ∀ k, k ∈ keys (storeMarker P A patchAnn) → (pfx k != some P.toList) = false := by
+    intro k hk
+    rcases keys_storeMarker A patchAnn hk with h | h
+    · simp [hkeys k h]
+    · subst h; simp [pfx_markerKey hP]
+  have hd : AgreeOffPrefix P.toList (mergeKvs A (storeMarker P A patchAnn)) A :=
+    filter_mergeKvs (q := fun k => pfx k != some P.toList) _ A hall
+  have hmark : markerKey P ∈ keys (mergeKvs A (storeMarker P A patchAnn)) ∨ knownish P.toList = true := by
+    cases hw : writesMarker P with
+    | true => exact Or.inl (marker_after_write A patchAnn hw hnm)
+    | false =>
+      right
+      simp only [writesMarker, Bool.and_eq_false_iff] at hw
+      rcases hw with hw | hw
+      · exact absurd (by simpa using hw) hP0
+      · simpa using hw
+  exact prefix_group_invisible cfg extra kvs m A _ P.toList hm ha hd hA (groupDropped_of_marker hP hmark) hx
 
-/-- `_store_marker` puts the marker into the patch (unless the body has it) exactly when the prefix
-    does not start with `kopf.`. -/
+/-- the hypotheses on the patch are met by what a `kopf.dev` operator writes (no marker among the
+    keys, everything under the prefix). -/
+example : (∀ k, k ∈ keys [("kopf.dev/touch-dummy", J.str "2020"), ("kopf.dev/create_fn", J.str "{}")] →
+      pfx k = some "kopf.dev".toList)
+    ∧ markerKey "kopf.dev" ∉ keys [("kopf.dev/touch-dummy", J.str "2020"), ("kopf.dev/create_fn", J.str "{}")]
+    ∧ writesMarker "kopf.dev" = true ∧ writesMarker "kopf.zalando.org" = false ∧ writesMarker "op.kopf.zalando.org" = false := by
+  refine ⟨?_, by decide, by decide, by decide, by decide⟩
+  intro k hk; simp [keys] at hk; rcases hk with rfl | rfl <;> decide
+
+/-- `_store_marker` puts the marker into the patch (unless the body or the patch has it) exactly when
+    the prefix is not recognised by itself. -/
 theorem store_marker_spec (P : String) (bodyAnn patchAnn : Kvs) :
     (writesMarker P = true → markerKey P ∈ keys bodyAnn ∨ markerKey P ∈ keys (storeMarker P bodyAnn patchAnn)) ∧
     (writesMarker P = false → storeMarker P bodyAnn patchAnn = patchAnn) :=
@@ -271,6 +294,19 @@ theorem essence_wf (cfg : Cfg) (extra : List (List String)) (b e : J) (hb : J.WF
 theorem change_detected (e e' : J) (p : Path) (hw : J.WF e) (hw' : J.WF e')
     (hne : ¬ resolveD e p ≈ resolveD e' p) : diff e e' [] ≠ [] :=
   change_detected_at p hw hw' hne
+
+/-- **A number turned into a boolean (or back) counts** — the former finding F7, repaired in kopf
+    6b2e53c: wherever two well-formed values hold a number resp. a boolean at the same path (`1` vs
+    `true`, `0` vs `false`, at any depth below mappings), their diff is non-empty. -/
+theorem bool_number_change_detected (e e' : J) (p : Path) (n : Int) (b : Bool) (hw : J.WF e) (hw' : J.WF e')
+    (h1 : resolveD e p = .num n) (h2 : resolveD e' p = .bool b) :
+    diff e e' [] ≠ [] ∧ diff e' e [] ≠ [] := by
+  refine ⟨change_detected e e' p hw hw' ?_, change_detected e' e p hw' hw ?_⟩
+  · rw [h1, h2]; unfold Equiv; simp [dropNulls, same]
+  · rw [h1, h2]; unfold Equiv; simp [dropNulls, same]
+
+example : diff (.obj [("spec", .obj [("a", .num 1)])]) (.obj [("spec", .obj [("a", .bool true)])]) [] ≠ []
+    ∧ diff (.obj [("l", .arr [.num 0])]) (.obj [("l", .arr [.bool false])]) [] ≠ [] := by decide
 
 /-- **Any change of a payload field counts** — changed, added or removed (`none` reads as `null`):
     if a payload stanza differs (not `≈`) between two well-formed bodies, the diff of their essences
@@ -338,15 +374,14 @@ theorem ordinary_annotation_change_detected (cfg : Cfg) (extra : List (List Stri
 /-- the hypotheses are met by the default configuration, a plain user annotation, a changed label. -/
 def cfgDefault : Cfg :=
   ⟨.leaf (.annotations "kopf.zalando.org" "last-handled-configuration" true []),
-   [.annotations "kopf.zalando.org", .status ["status", "kopf", "progress"]], hashes0⟩
+   [.annotations "kopf.zalando.org", .status ["status", "kopf", "progress"] ["status", "kopf", "dummy"]], hashes0⟩
 
 example : MetaPlain cfgDefault [["spec", "field"]] := by
   refine ⟨?_, ?_, ?_⟩
   · intro f hf; simp [cfgDefault, diffbaseFields, leafFields] at hf
   · intro f hf
     simp [cfgDefault, progressFields] at hf
-    subst hf
-    exact ⟨"status", rfl, by decide⟩
+    rcases hf with rfl | rfl <;> exact ⟨"status", rfl, by decide⟩
   · intro f hf
     simp at hf; subst hf
     exact ⟨"spec", ["field"], rfl, by decide⟩
